@@ -134,13 +134,31 @@ Proof.
     + rewrite ckcmp_11. reflexivity.
 Qed.
 
-Theorem comps_cmp_key : forall l1 l2, forallb digits_ne l1 = true -> forallb digits_ne l2 = true ->
-  comps_cmp l1 l2 = Ok (cmp_lex ckcmp (map ckey l1) (map ckey l2)).
+Theorem comps_rest_key : forall l1 l2, forallb digits_ne l1 = true -> forallb digits_ne l2 = true ->
+  comps_rest l1 l2 = Ok (cmp_lex ckcmp (map ckey l1) (map ckey l2)).
 Proof.
   induction l1 as [|x r1 IH]; intros [|y r2] H1 H2; try reflexivity.
   cbn [forallb] in H1, H2. apply andb_true_iff in H1, H2. destruct H1 as [Hx H1], H2 as [Hy H2].
-  cbn [comps_cmp map cmp_lex]. rewrite (comp_cmp_key x y Hx Hy).
+  cbn [comps_rest map cmp_lex]. rewrite (comp_cmp_key x y Hx Hy).
   destruct (ckcmp (ckey x) (ckey y)); try reflexivity. apply IH; assumption.
+Qed.
+
+(* the first component is an integer whatever its leading zeros *)
+Definition fkey (c : str) : N * (str * N) := (1%N, ([], int_of_digits c)).
+Definition ckeys (l : list str) : list (N * (str * N)) := match l with x :: r => fkey x :: map ckey r | [] => [] end.
+Lemma first_cmp_key x y : digits_ne x = true -> digits_ne y = true -> first_cmp x y = Ok (ckcmp (fkey x) (fkey y)).
+Proof.
+  intros Hx Hy. unfold first_cmp. destruct (eqs x y) eqn:E.
+  - apply eqs_eq in E. subst. rewrite (tpo_refl _ tpo_ckcmp). reflexivity.
+  - unfold digits_ne in Hx, Hy. unfold isdigit. rewrite Hx, Hy. cbn [andb]. unfold fkey. rewrite ckcmp_11. reflexivity.
+Qed.
+Theorem comps_cmp_key : forall l1 l2, forallb digits_ne l1 = true -> forallb digits_ne l2 = true ->
+  comps_cmp l1 l2 = Ok (cmp_lex ckcmp (ckeys l1) (ckeys l2)).
+Proof.
+  intros [|x r1] [|y r2] H1 H2; try reflexivity.
+  cbn [forallb] in H1, H2. apply andb_true_iff in H1, H2. destruct H1 as [Hx H1], H2 as [Hy H2].
+  cbn [comps_cmp ckeys cmp_lex]. rewrite (first_cmp_key x y Hx Hy).
+  destruct (ckcmp (fkey x) (fkey y)); try reflexivity. apply comps_rest_key; assumption.
 Qed.
 
 (* ---- the suffix loop ------------------------------------------------------------------ *)
@@ -187,7 +205,7 @@ Definition gok (s : str) : bool :=
   && forallb suffix_ok (g_suffixes s).
 
 Definition gkey (s : str) : gkeyT :=
-  (map ckey (fst (g_comps s)), (snd (g_comps s), (map skey (g_suffixes s), g_rev s))).
+  (ckeys (fst (g_comps s)), (snd (g_comps s), (map skey (g_suffixes s), g_rev s))).
 
 Lemma gkcmp_unfold c1 l1 s1 r1 c2 l2 s2 r2 :
   gkcmp (c1, (l1, (s1, r1))) (c2, (l2, (s2, r2))) =
@@ -228,7 +246,7 @@ Proof.
       rewrite (tpo_refl _ (tpo_lex ckcmp tpo_ckcmp)). unfold ocmp. rewrite (tpo_refl _ tpo_ocmp).
       rewrite SF. destruct (cmp_pad skcmp (0%Z, 0%N) _ _); reflexivity.
     + rewrite (comps_cmp_key comps1 comps2 C1 C2).
-      destruct (cmp_lex ckcmp (map ckey comps1) (map ckey comps2)); try reflexivity.
+      destruct (cmp_lex ckcmp (ckeys comps1) (ckeys comps2)); try reflexivity.
       unfold ocmp. destruct (letter_cmp let1 let2); try reflexivity.
       rewrite SF. destruct (cmp_pad skcmp (0%Z, 0%N) _ _); reflexivity.
 Qed.
